@@ -151,3 +151,12 @@ PROPS["C15"] = dict(
     watchdog_ms=60000,
     assumptions=["data-race freedom is a fact about the Go memory model: it is explored with the race detector (-race build of the harness), and assumed by the theorems, whose steps are whole DecodeFlow calls"],
 )
+
+PROPS["C01"] = dict(
+    modules=["Proofs.C01"],
+    theorems=["Goflow.C01.v5_safe", "Goflow.C01.sflow_safe", "Goflow.C01.netflow_safe", "Goflow.C01.iterations_bounded",
+              "Goflow.C01.parsePacket_safe", "Goflow.C01.produce_safe", "Goflow.C01.pipe_safe", "Goflow.C01.pipe_history_safe"],
+    generators=[dict(name="C01", quick=40, thorough=3000)],
+    harness=["impl"],
+    level_text="Theorems: for every byte string, every template/sampling state and every history the decoders, the dissector, the conversion and the pipes of the model end in a result or a returned error (panic and fuel exhaustion are explicit outcomes of the model and proved unreachable; loops need at most |d|+2 iterations). PARTIAL: configurations with custom mappings are proved only under C14's Sane predicate; wall-clock time of the real process is watched by a watchdog, not proved.",
+)
